@@ -200,17 +200,20 @@ class Bench:
             flag("stdout:raises:" + type(e).__name__, "LocalBackend.stdout: " + str(e)[:160])
             lines = None
         if lines is not None:
+            eol_exc = None
             try:
                 got = self.R.retrieve(log_lines=lines)
             except Exception as e:  # noqa: BLE001
-                flag("retrieve:raises:" + type(e).__name__, str(e)[:160])
+                eol_exc = type(e).__name__
+                flag("retrieve:raises:" + eol_exc, str(e)[:160])
             else:
                 self.check(got, expected, "retrieve", flag)
             bare = [ln[:-1] if ln.endswith("\n") else ln for ln in lines]
             try:
                 got2 = self.R.retrieve(log_lines=bare)
             except Exception as e:  # noqa: BLE001
-                flag("retrieve[no-eol]:raises:" + type(e).__name__, str(e)[:160])
+                if type(e).__name__ != eol_exc:  # the same failure in both observations is reported once
+                    flag("retrieve[no-eol]:raises:" + type(e).__name__, str(e)[:160])
             else:
                 if got is None or (got2 != got and not A.same(got2, got)):
                     self.check(got2, expected, "retrieve[no-eol]", flag)
@@ -295,7 +298,8 @@ def _simpler(case):
             yield dict(case, items=items[:i] + [[k, "p_flat"]] + items[i + 1:])
 
 
-def violations_of(bench, case, res):
+def violations_of(res):
+    """(clause, detail) pairs of one case result; the 'arrived as' note is folded into the rejection clause."""
     out = []
     note = dict(res["clauses"]).get("reject:note")
     for clause, detail in res["clauses"]:
@@ -376,7 +380,7 @@ def task(t):
                             "stream_head": r2["data"][:200].decode("utf-8", "replace"),
                             "stream_bytes": r2["n_bytes"], "retrieved": r2["n_got"]})
             if res["clauses"]:
-                for clause, detail in violations_of(b, case, res):
+                for clause, detail in violations_of(res):
                     k = per_clause.get(clause, 0)
                     if k >= MAX_MINIMISE_PER_CLAUSE:
                         continue
@@ -385,7 +389,7 @@ def task(t):
                     key = clause + "|" + pattern(small)
                     if key not in found:
                         # detail of the minimal case, not of the big one
-                        d2 = dict(violations_of(b, small, b.run_case(small))).get(clause, detail)
+                        d2 = dict(violations_of(b.run_case(small))).get(clause, detail)
                         found[key] = Violation(PROP, key, "%s: %s [minimal stream: %s]" % (clause, d2, pattern(small)),
                                                {"case": small, "clause": clause, "found_in": pattern(case)})
     cov.add("evaluations", n)
@@ -414,8 +418,8 @@ def build_tasks(tier):
         for s in prod(P, repeat=k):
             T.append(_t("F1_seq<=2_full", s, A.NOISE_FULL))
     if thorough:
-        for s in prod(P, repeat=3):
-            T.append(_t("F1_seq3_allpayloads_x_design_noise", s, A.NOISE_DESIGN))
+        for s in prod(A.PAYLOAD_MAIN, repeat=3):
+            T.append(_t("F1_seq3_main14_x_design_noise", s, A.NOISE_DESIGN))
         for s in prod(A.PAYLOAD_SMALL, repeat=3):
             T.append(_t("F1_seq3_small_x_extra_noise", s, A.NOISE_FULL, must_noise=extra))
         for s in prod(A.PAYLOAD_TINY, repeat=4):
@@ -494,7 +498,7 @@ def run(tier, seed):
                   "cases_per_family": fam}
     res.rule = (
         "Full cartesian products, no sampling: for each family, every report sequence over the stated payload alphabet "
-        "(length<=2 over all 17 payloads; length 3 (and 4 in thorough) over stated sub-alphabets) x every placement of "
+        "(length<=2 over all 17 payloads; length 3 over 6 payloads in quick, over the 14 main payloads in thorough; length 4 over 4 payloads in thorough) x every placement of "
         "zero/one (F1d2: up to two) noise items in each of the k+1 slots before/between/after the reports (a noise item "
         "without trailing newline shares its line with the next report) x (F2) every wall-clock pattern in {lo,mid,hi}^k "
         "x perf-counter ties x Reporter variants; F3 mixes the rejection alphabet in; F5 adds non-UTF-8 noise. Each case "
@@ -523,7 +527,7 @@ def replay(data):
     out = []
     with Bench() as b:
         res = b.run_case(case)
-        for clause, detail in violations_of(b, case, res):
+        for clause, detail in violations_of(res):
             out.append(Violation(PROP, clause + "|" + pattern(case), "%s: %s" % (clause, detail), data))
     want = data.get("clause")
     if want:
